@@ -71,6 +71,7 @@ func runC14(t *testing.T, c ReplCase) *kit.Result {
 	cfg := c.Sched.Config()
 	cfg.Verbose = kit.Verbose
 	var sim *simrt.Sim
+	kit.RaceLogDelta() // (race-detector workers) forget what earlier runs reported
 	var ft c14features
 	writes := 0
 	out := simrt.Run(t, cfg, func() {
@@ -311,6 +312,13 @@ func runC14(t *testing.T, c ReplCase) *kit.Result {
 	res.Absorb(out)
 	if sim != nil && kit.Verbose {
 		res.Trace = sim.TraceLines()
+	}
+	if simrt.RaceEnabled {
+		// every fourth worker runs a -race binary (see C15)
+		res.Probe("runs_under_the_race_detector")
+		if report := kit.KevoRaces(kit.RaceLogDelta()); report != "" {
+			res.V = &kit.Violation{Kind: "data-race", Signature: kit.RaceSignature(report), Detail: clipReport(report)}
+		}
 	}
 	res.Probes["write_steps"] += int64(writes)
 	res.Probes["transactions_replicated"] += int64(ft.txns)
